@@ -671,6 +671,19 @@ impl<A: AsRef<[usize]>> From<A> for EliasFano {
     }
 }
 
+/// Returns the number ⌊lg(*u*/*n*)⌋ of lower bits for a sequence of `n` values
+/// bounded by `u` (zero if *u* < *n*).
+///
+/// The computation is exact for all arguments (the result is always smaller
+/// than [`usize::BITS`]); an empty sequence is treated like a sequence of one
+/// element, so that the upper-bits array has constant size.
+fn lower_bits(n: usize, u: usize) -> usize {
+    match u / n.max(1) {
+        0 => 0,
+        q => q.ilog2() as usize,
+    }
+}
+
 /// A sequential builder for [`EliasFano`].
 ///
 /// After creating an instance, you can use [`EliasFanoBuilder::push`] to add
@@ -711,11 +724,7 @@ impl EliasFanoBuilder {
     /// Creates a builder for an [`EliasFano`] containing
     /// `n` numbers smaller than or equal to `u`.
     pub fn new(n: usize, u: usize) -> Self {
-        let l = if u >= n {
-            (u as f64 / n as f64).log2().floor() as usize
-        } else {
-            0
-        };
+        let l = lower_bits(n, u);
 
         Self {
             n,
@@ -872,11 +881,7 @@ impl EliasFanoConcurrentBuilder {
     /// Creates a concurrent builder for a sequence containing `n` nonnegative
     /// numbers smaller than or equal to `u`.
     pub fn new(n: usize, u: usize) -> Self {
-        let l = if u >= n {
-            (u as f64 / n as f64).log2().floor() as usize
-        } else {
-            0
-        };
+        let l = lower_bits(n, u);
 
         Self {
             u,
